@@ -946,11 +946,10 @@ func (tb *Table) mergeRawItemsBlocks(ibs []*inmemoryBlock, isFinal bool) {
 			logger.Panicf("FATAL: cannot merge raw parts: %s", err)
 		}
 		if tb.flushCallback != nil {
-			if isFinal {
-				tb.flushCallback()
-			} else {
-				atomic.CompareAndSwapUint32(&tb.needFlushCallbackCall, 0, 1)
-			}
+			// The new items are visible to searches from here on, so the caches that the callback invalidates must not
+			// outlive this point: a periodic flush runs the callback like a final one. (Deferring it to the 10 s ticker
+			// let cached tag-filter results miss series that SHOW SERIES already listed.)
+			tb.flushCallback()
 		}
 	}
 
